@@ -22,6 +22,19 @@ let int_of_z (z : BinNums.coq_Z) : int =
 let rec nat_of_int (n : int) : Datatypes.nat = if n <= 0 then Datatypes.O else Datatypes.S (nat_of_int (n - 1))
 let rec int_of_nat (n : Datatypes.nat) : int = match n with Datatypes.O -> 0 | Datatypes.S m -> 1 + int_of_nat m
 
+(* arbitrary-size decimal -> N / Z (OCaml ints are 63 bits) *)
+let n_of_dec_string (s : string) : BinNums.coq_N =
+  let acc = ref BinNums.N0 in
+  let ten = n_of_int 10 in
+  Stdlib.String.iter (fun c -> acc := BinNat.N.add (BinNat.N.mul !acc ten) (n_of_int (Char.code c - 48))) s;
+  !acc
+let z_of_dec_string (s : string) : BinNums.coq_Z =
+  let neg = Stdlib.String.length s > 0 && Stdlib.String.get s 0 = '-' in
+  let body = if neg then Stdlib.String.sub s 1 (Stdlib.String.length s - 1) else s in
+  match n_of_dec_string body with
+  | BinNums.N0 -> BinNums.Z0
+  | BinNums.Npos p -> if neg then BinNums.Zneg p else BinNums.Zpos p
+
 let dec_str (s : string) : BinNums.coq_N list =
   if s = "" then [] else L.map (fun x -> n_of_int (int_of_string x)) (S.split_on_char ',' s)
 let enc_str (l : BinNums.coq_N list) : string =
